@@ -69,3 +69,71 @@ def layout_full(tier, seed, params):
             if (big == "zst") or (big == "u8" and n <= 2 ** 60):
                 out.append("ty=%s tsize=%d talign=%d n=%d" % (ty, s, a, n))
     return out
+
+
+OWN_LENS = [0, 1, 2, 3, 4, 5, 6, 7, 8, 16, 17, 33]
+ZIP_FORMS = [("o", "o"), ("o", "r"), ("o", "m"), ("r", "o"), ("m", "o"), ("r", "r"), ("r", "m"), ("m", "r"), ("m", "m"), ("b", "b")]
+
+
+def fault_points(n, calls, tier):
+    if n <= 8 or tier == "thorough":
+        return list(range(calls))
+    return sorted(set([0, calls // 2, calls - 1])) if calls > 0 else []
+
+
+def own_c04(tier, seed, params):
+    out = []
+    for n in OWN_LENS:
+        pts = ["none"] + ["call:%d" % k for k in fault_points(n, n, tier)]
+        for ft in pts:
+            out.append("op=generate n=%d fault=%s" % (n, ft))
+            out.append("op=default n=%d fault=%s" % (n, ft))
+            for fm in "ormb":
+                out.append("op=map form=%s n=%d fault=%s" % (fm, n, ft))
+                out.append("op=fold form=%s n=%d fault=%s" % (fm, n, ft))
+            for fa, fb in ZIP_FORMS:
+                out.append("op=zip form=%s form2=%s n=%d fault=%s" % (fa, fb, n, ft))
+        for ft in ["none"] + ["clone:%d" % k for k in fault_points(n, n, tier)]:
+            out.append("op=clone n=%d fault=%s" % (n, ft))
+        # by-value iterator: clone / fold / rfold from several positions
+        if n <= 8:
+            for f in range(0, n + 1):
+                for b in range(f, n + 1):
+                    ln = b - f
+                    for k in ["none"] + list(range(ln)):
+                        out.append("op=iter_clone n=%d front=%d back=%d fault=%s" % (n, f, b, "none" if k == "none" else "clone:%d" % k))
+                        out.append("op=iter_fold n=%d front=%d back=%d fault=%s" % (n, f, b, "none" if k == "none" else "call:%d" % k))
+                        out.append("op=iter_rfold n=%d front=%d back=%d fault=%s" % (n, f, b, "none" if k == "none" else "call:%d" % k))
+        # source iterator panicking at every poll (stack and boxed, try and panicking forms)
+        for cnt in sorted(set([0, max(0, n - 1), n, n + 1])):
+            script = "s" * cnt + "n"
+            for boxed in (0, 1):
+                for try_ in (0, 1):
+                    for k in ["none"] + fault_points(n, min(cnt, n) + 2, tier):
+                        out.append("op=collect n=%d boxed=%d try=%d hint=0,none script=%s fault=%s" % (n, boxed, try_, script, "none" if k == "none" else "poll:%d" % k))
+    return out
+
+
+def own_c05(tier, seed, params):
+    out = []
+    maxn = 6 if tier == "quick" else 8
+    for n in range(0, maxn + 1):
+        for f in range(0, n + 1):
+            for b in range(f, n + 1):
+                ln = b - f
+                bads = ["none"] + ["dtor:%d" % (1 + i) for i in range(f, b)]
+                for bad in bads:
+                    for k in range(0, ln + 2):
+                        out.append("op=iter_nth n=%d front=%d back=%d arg=%d fault=%s" % (n, f, b, k, bad))
+                        out.append("op=iter_nth_back n=%d front=%d back=%d arg=%d fault=%s" % (n, f, b, k, bad))
+                    out.append("op=iter_last n=%d front=%d back=%d fault=%s" % (n, f, b, bad))
+                    out.append("op=iter_count n=%d front=%d back=%d fault=%s" % (n, f, b, bad))
+                    out.append("op=iter_drop n=%d front=%d back=%d fault=%s" % (n, f, b, bad))
+    for n in (16, 17, 33):
+        for (f, b) in ((0, n), (3, n - 2), (n // 2, n // 2 + 1)):
+            for bad in ("none", "dtor:%d" % (f + 1), "dtor:%d" % b, "dtor:%d" % ((f + b) // 2 + 1)):
+                for k in (0, 1, (b - f) // 2, b - f - 1, b - f, b - f + 1):
+                    out.append("op=iter_nth n=%d front=%d back=%d arg=%d fault=%s" % (n, f, b, k, bad))
+                    out.append("op=iter_nth_back n=%d front=%d back=%d arg=%d fault=%s" % (n, f, b, k, bad))
+                out.append("op=iter_last n=%d front=%d back=%d fault=%s" % (n, f, b, bad))
+    return out
